@@ -36,6 +36,7 @@ def _shards(tier):
         {"fn": "float_enc", "consts": {}, "timeout": 300},
         {"fn": "nan_spot", "consts": {}, "timeout": 120, "cover": False},
         {"fn": "zero_spot", "consts": {}, "timeout": 120, "cover": False},
+        {"fn": "string_spot", "consts": {}, "timeout": 300, "cover": False},
         {"fn": "seq_lemma", "consts": {"n": n}, "timeout": 900},
         {"fn": "set_lemma", "consts": {"n": n}, "timeout": 900},
         {"fn": "map_lemma", "consts": {"n": n}, "timeout": 900},
@@ -53,6 +54,8 @@ def _shards(tier):
     for ty in ("double", "float"):
         out.append({"fn": "seq_of_double", "consts": {"ty": ty}, "timeout": 600})
     out.append({"fn": "spot_seq_variant", "consts": {}, "timeout": 600})
+    for order in range(4):
+        out.append({"fn": "tuple_mixed_ints", "consts": {"order": order, "nested": order % 2}, "timeout": 600})
     for ar in (1, 2, 3):
         out.append({"fn": "tuple_lemma", "consts": {"arity": ar}, "timeout": 600})
     return out
